@@ -1072,6 +1072,10 @@ def coll(t):
             t = strip_refs(call_args(t)[0])
         elif isinstance(t, tuple) and t and t[0] == "deref":
             t = strip_refs(t[1])
+        elif is_index_call(t) and len(call_args(t)) == 2 and agg_variant(call_args(t)[1]) and agg_variant(call_args(t)[1])[1] in ("Range", "RangeFrom", "RangeTo", "RangeFull") \
+                and canon_range(call_args(t)[0], call_args(t)[1]) is not None and const_int(strip_refs(canon_range(call_args(t)[0], call_args(t)[1])[0])) == 0 \
+                and canon_range(call_args(t)[0], call_args(t)[1])[1] == LEN:
+            t = strip_refs(call_args(t)[0])          # x[0..x.len()], x[..]: the whole of x
         else:
             break
     return t
